@@ -2,7 +2,7 @@ SPECIFICATION Spec
 CONSTANTS
   MaxVariants = 2
   MaxFields = 2
-  VMenu = {"none", "ren", "ghostd", "ghost", "hint_tuple", "hint_struct", "hint_unit"}
+  VMenu = {"none", "ren", "ghostd", "ghost", "hint_tuple", "hint_struct", "hint_unit", "hint_tuple_ded"}
   FMenu = {"none", "ren", "expr", "ghostd"}
 INVARIANTS Emit Symmetric
 CHECK_DEADLOCK FALSE
